@@ -47,7 +47,9 @@ func runCase(t *chaingen.Tree, plan []mgrsim.Op, final bool) ([]mgrsim.Obs, *fai
 	}
 	for i, op := range all {
 		for _, id := range op.Nodes {
-			submitted[id] = true
+			if t.Nodes[id].TwinOf == nil {
+				submitted[id] = true // a same-id twin does not count as a submission of the genuine block
+			}
 		}
 		o := s.Do(op)
 		if i < len(plan) {
@@ -98,6 +100,16 @@ func checkStep(t *chaingen.Tree, op mgrsim.Op, prev, o mgrsim.Obs, submitted map
 		}
 		if !submitted[id] {
 			report("c01-unsubmitted-block", "after %v the best chain contains block %d that was never submitted", op, id)
+			return
+		}
+	}
+	if o.AboveTip != 0 {
+		report("c01-best-index-above-tip", "after %v BestIndex still answers for %d height(s) above the tip (height %d)", op, o.AboveTip, len(o.Best)-1)
+		return
+	}
+	for _, id := range o.Best {
+		if k := o.Known[id]; k.Body && !k.Good {
+			report("c01-best-chain-body-not-genuine", "after %v the stored body of best-chain block %d is not the block that was validated (a same-id copy)", op, id)
 			return
 		}
 	}
@@ -256,6 +268,9 @@ func run(c *hx.Ctx) {
 		js, _ := json.Marshal(cs)
 		res.Eval(string(js), reorg2 || rejected)
 		res.Count("regime:" + chaingen.RegimeNames[cs.Regime])
+		if mgrsim.HasTwin(t, cs.Plan) {
+			res.Count("histories-with-same-id-twin(monitors-only)")
+		}
 		res.CountN("calls", len(cs.Plan))
 		res.CountN("blocks", len(t.Nodes)-1)
 		if reorg2 {
@@ -279,7 +294,7 @@ func run(c *hx.Ctx) {
 			scs.Plan = small
 			res.Fail(f2.kind, f2.detail, map[string]any{"case": scs, "tree": describe(t)})
 		}
-		if toCoq && len(obs) == len(cs.Plan) {
+		if toCoq && len(obs) == len(cs.Plan) && !mgrsim.HasTwin(t, cs.Plan) {
 			cases = append(cases, mgrsim.CoqCase(t, cs.Plan, obs))
 		}
 		if len(res.Samples) < 2 {
@@ -308,7 +323,7 @@ func run(c *hx.Ctx) {
 	n := c.Scale(240, 6000)
 	for i := 0; i < n; i++ {
 		r := c.R.Fork()
-		cs := mgrsim.Case{Seed: r.U64(), Regime: i % 6, Opts: chaingen.GenOpts{Blocks: 5 + r.Intn(18), Branchiness: 2 + r.Intn(5), TxPerBlock: r.Intn(4), Corruptions: r.Intn(4), Jitter: r.Intn(4), OnInvalid: r.Intn(3)}}
+		cs := mgrsim.Case{Seed: r.U64(), Regime: i % 6, Opts: chaingen.GenOpts{Blocks: 5 + r.Intn(18), Branchiness: 2 + r.Intn(5), TxPerBlock: r.Intn(4), Corruptions: r.Intn(4), Jitter: r.Intn(4), OnInvalid: r.Intn(3), Twins: r.Intn(6) / 5}}
 		if cs.Regime >= 3 && r.Bool() {
 			cs.Opts.Jitter = 4000 // fast and slow blocks: branches diverge in work (near-ties for the 20% rule)
 		}
